@@ -10,7 +10,7 @@ from pathlib import Path
 from hypothesis import strategies as st
 
 from vlib import certs, scratch
-from vlib.core import Lane, ok, viol
+from vlib.core import Lane, grey, ok, viol
 from vlib.nlog import setup_logging
 
 LEVEL = "fault_enumeration"
@@ -130,14 +130,43 @@ class _Cursor(sqlite3.Cursor):
         _tick()
         return super().execute(*a, **kw)
 
+    def executemany(self, *a, **kw):
+        _tick()
+        return super().executemany(*a, **kw)
+
+    def executescript(self, *a, **kw):
+        _tick()
+        return super().executescript(*a, **kw)
+
 
 class _Conn(sqlite3.Connection):
+    """Every way a statement or a commit can be issued is a boundary: cursor.execute/executemany/executescript, the
+    connection's shortcuts of the same names (they create a cursor of their own in C, not through cursor()), commit(),
+    and leaving a `with connection:` block without an exception (which commits)."""
+
     def cursor(self, *a, **kw):
         return super().cursor(_Cursor)
+
+    def execute(self, *a, **kw):
+        _tick()
+        return super().execute(*a, **kw)
+
+    def executemany(self, *a, **kw):
+        _tick()
+        return super().executemany(*a, **kw)
+
+    def executescript(self, *a, **kw):
+        _tick()
+        return super().executescript(*a, **kw)
 
     def commit(self):
         _tick()
         return super().commit()
+
+    def __exit__(self, exc_type, exc, tb):
+        if exc_type is None and self.in_transaction:
+            _tick()
+        return super().__exit__(exc_type, exc, tb)
 
 
 _real_connect = sqlite3.connect
@@ -715,7 +744,8 @@ def run_big(case: dict):
         info = {"K": results.get("K"), "killed": results.get("killed"), "before": len(before), "after": len(after),
                 "nonempty_fail": 1}
         if not results.get("killed"):
-            return viol("harness-crash-point-not-reached", f"{results}", **info)
+            # the import went through without passing a boundary this harness can see: nothing was decided
+            return grey("crash-point-not-reached", **info)
         if integ != [("ok",)]:
             return viol("store-corrupted-by-crash", f"integrity_check after a crash before COMMIT of a {case['incoming']}-host import: {integ[:2]}", **info)
         if after != before:
